@@ -777,6 +777,9 @@ pub fn c02(ctx: &Ctx) -> Report {
     rep.rule.push("(P) E2: every integer sample rate in [100, 192000] (quick: every 7th) x T in {1 ms, 2 ms, 10 ms, 0.5/fs, 1/fs, 2/fs, 100/fs} plus a named 19 x 24 grid (clamped, infinite and NaN times included), each run on the real envelope through attack, decay and release with a watchdog: ticks per phase must lie in [max(1, ceil(N(1-2^-22))), N/(1-N/2^24)+2]; (H) E1: bounded-depth BFS over gate / tick / set_input histories against a five-state reference machine whose timed phases accumulate the per-tick ideal increment (so a mid-phase time change rescales only the remainder); (S) complete phase walks; non-trivial = phases timed in configurations + phase ends observed after more than one tick in histories".into());
     plane(ctx, &mut rep, 10);
     explore_h(ctx, &mut rep, &["C02"]);
+    if ctx.tier.is_thorough() {
+        key_selfcheck(AdsrM::new(1000.0, vec![0.001, 0.003], vec![0.0, 0.5]), 300_000, &mut rep, "adsr history machine");
+    }
     sweep_increments(ctx, &mut rep, &["C02"]);
     rep.nontrivial = rep.counters.get("phases_timed").copied().unwrap_or(0) + rep.counters.get("phase_ends_after_more_than_one_tick").copied().unwrap_or(0);
     rep.require_nonzero("phases_shorter_than_one_sample");
